@@ -1,8 +1,45 @@
 import Got.Drv.Common
-/- driver for the discipline model family (properties C18): to be written -/
+import Got.Model.Discipline
+import Got.Model.DisciplineSites
+/-
+drv_discipline:
+  sites            input lines `field func kind L|- after1,after2|-`  → `ok <role>` / `reject <why>`
+  trace            input lines `rd t | wr t | rel t a | acq t a ...` separated by ';' → `accept` / `reject`
+                   (runs the executable discipline monitor on an event trace; used for the corpus of old shapes)
+-/
 namespace Got.Drv.Discipline
+open Got.Model.Discipline Got.Drv
 
-def main (_args : List String) : IO Unit := do
-  IO.eprintln "drv_discipline: not implemented"
+def siteStep (_ : Unit) (line : String) : Unit × String :=
+  match words line with
+  | [field, func, kind, l, after] =>
+    let aft := if after = "-" then [] else after.splitOn ","
+    ((), matchSite field func kind (l = "L") aft)
+  | [] => ((), "")
+  | _ => ((), "reject malformed-line")
+
+def parseEv (ws : List String) : Option Ev :=
+  match ws with
+  | ["rd", t] => t.toNat?.map Ev.rd
+  | ["wr", t] => t.toNat?.map Ev.wr
+  | ["rel", t, a] => match t.toNat?, a.toNat? with
+    | some t, some a => some (Ev.rel t a)
+    | _, _ => none
+  | ["acq", t, a] => match t.toNat?, a.toNat? with
+    | some t, some a => some (Ev.acq t a)
+    | _, _ => none
+  | _ => none
+
+def traceStep (_ : Unit) (line : String) : Unit × String :=
+  if line.trimAscii.toString.isEmpty then ((), "") else
+  let evs := (line.splitOn ";").map (fun s => parseEv (words s))
+  if evs.all Option.isSome then
+    ((), if accepts (evs.filterMap id) then "accept" else "reject")
+  else ((), "bad-trace")
+
+def main (args : List String) : IO Unit := do
+  match args with
+  | ["trace"] => lineLoop (← IO.getStdin) (← IO.getStdout) traceStep ()
+  | _ => lineLoop (← IO.getStdin) (← IO.getStdout) siteStep ()
 
 end Got.Drv.Discipline
